@@ -272,10 +272,17 @@ pub struct Violation {
     /// invariant id of Appendix B, e.g. "C19.field(key_id)"
     pub invariant: String,
     pub detail: String,
+    /// a narrower trace that reproduces the same violation (e.g. the single fault of an
+    /// enumeration that failed); reported instead of the full trace when present
+    pub narrowed: Option<Box<Trace>>,
 }
 
 impl Violation {
     pub fn new(invariant: impl Into<String>, detail: impl Into<String>) -> Violation {
-        Violation { invariant: invariant.into(), detail: detail.into() }
+        Violation { invariant: invariant.into(), detail: detail.into(), narrowed: None }
+    }
+    pub fn narrowed(mut self, t: Trace) -> Violation {
+        self.narrowed = Some(Box::new(t));
+        self
     }
 }
